@@ -7,7 +7,12 @@ ID = "C12"
 LEAN_MODULE = "Ctrmml.Properties.C12"
 THEOREMS = ["C12_seek_eq_play", "C12_same_future", "C12_skip_stopped", "alive_antitone", "C12_seek_eq_play_of_alive_last",
             "C12_same_future_of_alive_last", "C12_seek_eq_play_noerr", "C12_obs_enabled", "C12_past_end_playTime_differs",
-            "C12_example_alive", "C12_example_lands_inside", "C12_seek_eq_play_noerr_clean", "exSong_endsClean"]
+            "C12_example_alive", "C12_example_lands_inside", "C12_seek_eq_play_noerr_clean", "exSong_endsClean",
+            "C12_played_settled", "C12_seek_eq_play_from", "C12_seek_eq_play_after_play", "C12_seek_eq_play_from_noerr", "alive_of_le",
+            "C12_example_from_lands", "noerr_of_flat", "C12_seek_eq_play_flat", "C12_seek_eq_play_flat_enabled",
+            "C12_seek_eq_play_flat_after_play", "flatRoot_flat", "C12_example_flat_lands",
+            "noerr_of_flatL", "C12_seek_eq_play_flatL", "C12_seek_eq_play_flatL_enabled", "flatLRoot_flatL", "C12_example_flatL_lands",
+            "noerr_of_loop1", "C12_seek_eq_play_loop1", "C12_seek_eq_play_loop1_enabled", "loopRoot_loop1", "C12_example_loop1_lands"]
 LEVEL = "proof"
 STREAM = "seek.obs"
 CHUNK = 60
@@ -20,15 +25,34 @@ LEVEL_TEXT = ("Machine-checked theorems over the Lean model of Player::skip_tick
               "(C12_seek_eq_play_noerr_clean; invariant: a stopped player has no residual duration); past the end play_time really differs (C12_past_end_playTime_differs, proved "
               "witness; outside the property, n is limited to the track length). The hypothesis is proved by kernel evaluation for a concrete track with a loop, a break, a call and "
               "relative commands and a seek landing inside a note (C12_example_alive, C12_example_lands_inside). Tied to player.cpp by comparing full private-state dumps and 24-tick "
-              "futures of both real paths with the model for generated tracks and every n (incl. n past the end).")
+              "futures of both real paths with the model for generated tracks and every n (incl. n past the end). "
+              "Round 3: (1) seeks on a player that is not fresh: every state left by one or more play_tick() calls is settled (C12_played_settled, no hypothesis), and from ANY settled "
+              "state s, skip_ticks(n) = n play_tick()s exactly -- no off-by-one; the n+1 of the fresh-player theorems is only the first, time-less fetch tick -- when the track is alive "
+              "after n-1 ticks from s (C12_seek_eq_play_from; corollary for the states after m+1 played ticks C12_seek_eq_play_after_play; obs-level with no-error only "
+              "C12_seek_eq_play_from_noerr; evaluated instance seek 3 after 4 played ticks on the example track, C12_example_from_lands). (2) The no-error hypothesis is DISCHARGED for "
+              "the decidable syntactic class Flat (every root event is NOTE/REST/TIE/NOP or a channel command other than DRUM_MODE, absolute or relative -- no LOOP_*/SEGNO/JUMP/END/"
+              "PLATFORM -- and fewer than 100000 events): noerr_of_flat proves by an invariant over step_event / the fetch loop / play_tick that no error is ever recorded and the step "
+              "budget is never exhausted, for every song, platform table and tick count; hence C12_seek_eq_play_flat: skip_ticks(n) and n+1 play_tick()s agree on obs with NO aliveness "
+              "or no-error hypothesis (whole-state equality when still enabled: C12_seek_eq_play_flat_enabled; after playing: C12_seek_eq_play_flat_after_play; instance flatRoot_flat, "
+              "C12_example_flat_lands). (3) The same for FlatL = Flat plus SEGNO (loop point) and explicit END events, fewer than 49000 events -- tracks that play forever: noerr_of_flatL "
+              "(the fetch loop is bounded through the zero-time guard of the root END: play_time is constant within one run, so at most one jump back per run, at most 2*length+3 "
+              "steps), C12_seek_eq_play_flatL, C12_seek_eq_play_flatL_enabled; instance flatLRoot_flatL, C12_example_flatL_lands (seek 20 lands in the ninth pass). (4) The same for Loop1 = \"other\" events plus non-nested, closed counted loops [..]n with 0<=n<=255 and no "
+              "LOOP_BREAK, under the decidable weight bound W(root)+255*(length+1)<100000: noerr_of_loop1 (invariant: stack empty or one LOOP frame consistent with the position; "
+              "measure = weight of the rest of the track + count*(length+1), the jump back at LOOP_END is paid by one unit of the count), C12_seek_eq_play_loop1, "
+              "C12_seek_eq_play_loop1_enabled; instance loopRoot_loop1, C12_example_loop1_lands (seek 10 lands in the second pass of the second loop).")
 LEVEL_NOTE = ("Trusted: Lean kernel (propext, Classical.choice, Quot.sound), Model/PlayerCh.lean + Model/Player.lean (agreement with player.cpp by differential testing), the step budget "
               "of the inner fetch loop (exhaustion would surface as an error state and is excluded by the no-error hypothesis; never observed). `event`, note_count and rest_count are "
               "outputs, not state. Seeks beyond the end of a finished track are outside the property (n up to the track length): there the two real paths differ in play_time exactly as "
-              "the model does (skip_ticks adds the remaining distance, play_tick does not count on a stopped player); the spec oracle skips those n, the correspondence compares them.")
+              "the model does (skip_ticks adds the remaining distance, play_tick does not count on a stopped player); the spec oracle skips those n, the correspondence compares them. "
+              "Round 3: for Flat / FlatL / Loop1 tracks no hypothesis is left (the <100000 / <49000 events bound resp. the weight bound of Loop1 is a model artefact: a run of 100000 zero-length events would exhaust the model's step "
+              "budget, the C++ has none); for tracks with nested loops, loop breaks, loops combined with a loop point, calls, drum mode or PLATFORM the alive/no-error hypothesis remains and is decided per case by evaluation "
+              "(correspondence + oracle). Seeks on non-fresh players are proved for settled states; the correspondence stream itself seeks fresh players only.")
 RULE = ("valid tracks from the song grammar (loops with breaks, calls, drum-mode routines, loop point, absolute and relative channel commands, tempo/volume mode switches, platform "
         "commands) x every seek distance n in 1..min(length,40) plus boundary distances; non-trivial = contains loop/call/drum/segno; distinct by request text")
 EXPLANATION = "theorem over the model for all songs and n; correspondence on private-state dumps of both real paths; spec oracle = equality of the two real dumps and futures"
-ASSUMPTIONS = ["track alive (enabled, no error) after n single ticks (one hypothesis; for the obs-level theorem only: no error after n ticks)", "inner fetch loops end within the step budget"]
+ASSUMPTIONS = ["track alive (enabled, no error) after n single ticks (one hypothesis; for the obs-level theorem only: no error after n ticks); discharged (no hypothesis) for Flat, FlatL and Loop1 tracks (C12_seek_eq_play_flat, C12_seek_eq_play_flatL, C12_seek_eq_play_loop1)",
+               "inner fetch loops end within the step budget (proved for Flat, FlatL and Loop1 tracks)",
+               "seek from a non-fresh player: the state is settled (proved for every state left by play_tick) and alive after n-1 further ticks"]
 
 CORPUS = [
     "seek 0 1,2,3,4,5,6,7,8 T0:2.36.2.1,2.38.3.0,1.0.0.2",
